@@ -5,6 +5,11 @@ use crate::obj::*;
 use crate::shadow::*;
 use crate::vm::VerifVM;
 use crate::world::{self, emit, violation, with_report, world, NGLOBALS, NPINROOTS, NROOTS};
+
+/// Roots 0..GEN_ROOTS are general purpose, SCRATCH.. are scratch registers of composite
+/// operations, the last NPINROOTS may be reported as pinning roots.
+pub const GEN_ROOTS: usize = 36;
+pub const SCRATCH: usize = 36;
 use mmtk::memory_manager;
 use mmtk::util::alloc::AllocationError;
 use mmtk::util::Address;
@@ -193,19 +198,23 @@ impl Mut {
         id
     }
 
+    /// A general-purpose root (sometimes one of the roots that may be reported as pinning roots).
     fn pick_root(&mut self) -> usize {
-        let n = if world().cfg.pin_roots && world().cfg.supports_pinning_roots() { NROOTS } else { NROOTS };
-        self.rng.usize_below(n)
+        if self.rng.chance(1, 10) {
+            NROOTS - NPINROOTS + self.rng.usize_below(NPINROOTS)
+        } else {
+            self.rng.usize_below(GEN_ROOTS)
+        }
     }
 
     fn pick_nonnull_root(&mut self) -> Option<usize> {
         for _ in 0..6 {
-            let r = self.rng.usize_below(NROOTS);
+            let r = self.pick_root();
             if self.root(r) != 0 {
                 return Some(r);
             }
         }
-        (0..NROOTS).find(|r| self.root(*r) != 0)
+        (0..GEN_ROOTS).find(|r| self.root(*r) != 0)
     }
 
     /// roots[a].field[i] = roots[b] (or null), through the barriers.
@@ -430,7 +439,7 @@ impl Mut {
     /// Build a singly linked list of `n` small objects hanging off root r.
     fn op_build_list(&mut self, n: usize) {
         let r = self.pick_root();
-        let t = (r + 1) % NROOTS;
+        let t = SCRATCH;
         let size = 32 + 8 + 8 * self.rng.usize_below(6);
         if self.alloc_into_root(r, size, 1, SEM_DEFAULT, KIND_NORMAL, 0, 3, 0) == 0 {
             return;
@@ -462,38 +471,15 @@ impl Mut {
         if depth == 0 {
             return;
         }
-        // use a scratch root different from r
-        let t = (r + 1 + depth) % NROOTS;
-        if t == r {
-            return;
-        }
-        let saved = self.save_root(t);
+        // children are built in the scratch root of this depth (never a general root, so nothing
+        // that is still referenced is ever hidden from the collector)
+        let t = SCRATCH + depth;
         for i in 0..fanout {
             world::safepoint_poll();
             self.build_tree_rec(t, depth - 1, fanout);
             self.write_field(r, i, Some(t));
         }
-        self.restore_root(t, saved);
-    }
-    fn save_root(&mut self, t: usize) -> u64 {
-        world().shadow.lock().unwrap().roots[self.idx][t]
-    }
-    fn restore_root(&mut self, t: usize, id: u64) {
-        let w = world();
-        let mut sh = w.shadow.lock().unwrap();
-        // the saved object is only kept alive if something else references it: re-reading its
-        // address from the shadow is safe only if it is still known
-        match sh.objs.get(&id) {
-            Some(o) if id != 0 => {
-                let a = o.addr;
-                sh.roots[self.idx][t] = id;
-                self.set_root(t, a);
-            }
-            _ => {
-                sh.roots[self.idx][t] = 0;
-                self.set_root(t, 0);
-            }
-        }
+        self.drop_root(t);
     }
 
     /// The generational shape of C05: an old object is made to hold the only reference to a
@@ -504,7 +490,7 @@ impl Mut {
         let mut old = None;
         {
             let sh = w.shadow.lock().unwrap();
-            for r in 0..NROOTS {
+            for r in 0..GEN_ROOTS {
                 let id = sh.roots[self.idx][r];
                 if id != 0 {
                     let o = &sh.objs[&id];
@@ -516,10 +502,8 @@ impl Mut {
             }
         }
         let Some(a) = old else { return };
-        let t = (a + 7) % NROOTS;
-        if t == a {
-            return;
-        }
+        let t = SCRATCH;
+        let u = SCRATCH + 1;
         let n = 1 + self.rng.usize_below(3);
         // young chain
         let size = 48 + 8 * self.rng.usize_below(8);
@@ -527,27 +511,32 @@ impl Mut {
             return;
         }
         for _ in 0..n {
-            let u = (t + 1) % NROOTS;
-            if u == a {
-                break;
-            }
-            let saved = self.save_root(u);
             if self.alloc_into_root(u, 40, 1, SEM_DEFAULT, KIND_NORMAL, 0, 3, 0) != 0 {
                 self.write_field(u, 0, Some(t));
                 self.copy_root(t, u);
             }
-            self.restore_root(u, saved);
+            self.drop_root(u);
         }
         let slot = {
             let sh = w.shadow.lock().unwrap();
             let id = sh.roots[self.idx][a];
-            let o = &sh.objs[&id];
-            let first = if o.kind != KIND_NORMAL { 1 } else { 0 };
-            first + self.rng.usize_below(o.nrefs as usize - first)
+            if id == 0 {
+                None
+            } else {
+                let o = &sh.objs[&id];
+                let first = if o.kind != KIND_NORMAL { 1 } else { 0 };
+                if o.nrefs as usize > first {
+                    Some(first + self.rng.usize_below(o.nrefs as usize - first))
+                } else {
+                    None
+                }
+            }
         };
-        self.write_field(a, slot, Some(t));
+        if let Some(slot) = slot {
+            self.write_field(a, slot, Some(t));
+            with_report("C05", |r| r.count("remset_shapes_planted", 1));
+        }
         self.drop_root(t);
-        with_report("C05", |r| r.count("remset_shapes_planted", 1));
     }
 
     fn op_array_copy(&mut self) {
@@ -732,38 +721,34 @@ impl Mut {
         if self.alloc_into_root(r0, 48, 1, SEM_DEFAULT, KIND_NORMAL, 0, 3, 0) == 0 {
             return;
         }
-        let t = (r0 + 1) % NROOTS;
-        let saved = self.save_root(t);
-        let mut key_root = r0;
-        let mut keys_to_drop = vec![];
-        for i in 0..n {
+        let t = SCRATCH; // the value being built
+        let k = SCRATCH + 1; // the current key while building
+        self.copy_root(k, r0);
+        let mut built = 0;
+        for _ in 0..n {
             // value_i (will be the next key)
             if self.alloc_into_root(t, 56, 1, SEM_DEFAULT, KIND_NORMAL, 0, 3, 0) == 0 {
                 break;
             }
             {
                 let mut sh = w.shadow.lock().unwrap();
-                let (kid, vid) = (sh.roots[self.idx][key_root], sh.roots[self.idx][t]);
+                let (kid, vid) = (sh.roots[self.idx][k], sh.roots[self.idx][t]);
+                if kid == 0 || vid == 0 {
+                    break;
+                }
                 let ka = sh.objs[&kid].addr;
                 let va = sh.objs[&vid].addr;
                 sh.ephemerons.push(Eph { key: kid, val: vid, key_addr: ka, val_addr: va });
             }
-            // next key = this value; keep it in a scratch root only while building
-            let u = (t + 1 + i) % NROOTS;
-            if u == r0 || u == t {
-                break;
-            }
-            keys_to_drop.push((u, self.save_root(u)));
-            self.copy_root(u, t);
-            key_root = u;
+            // next key = this value
+            self.copy_root(k, t);
+            built += 1;
         }
-        for (u, s) in keys_to_drop.into_iter().rev() {
-            self.restore_root(u, s);
-        }
-        self.restore_root(t, saved);
+        self.drop_root(t);
+        self.drop_root(k);
         with_report("C13", |r| {
             r.count("ephemeron_chains", 1);
-            r.set_max("max_chain_length", n as u64);
+            r.set_max("max_chain_length", built as u64);
         });
     }
 
